@@ -109,7 +109,8 @@ theorem C06_tick_gap (t : Int) (h1 : minTick ≤ t) (h2 : t < maxTick) :
 /-! non-vacuity: the statements at concrete ticks are non-trivial facts about the generated table -/
 example : (sqrtAt (-1) - 1) ^ 2 * 10001 ^ 1 < 2 ^ 192 * 10000 ^ 1 ∧ 2 ^ 192 * 10000 ^ 1 < (sqrtAt (-1) + 1) ^ 2 * 10001 ^ 1 :=
   (C06_close_nonpos 1 (by decide)).2
-example : ¬ ((sqrtAt (-1) - 2) ^ 2 * 10001 ^ 1 < 2 ^ 192 * 10000 ^ 1 ∧ 2 ^ 192 * 10000 ^ 1 < (sqrtAt (-1)) ^ 2 * 10001 ^ 1) := by
+-- … and it pins the value down: the same statement about `sqrtAt (-1) + 1` is false
+example : ¬ ((sqrtAt (-1) + 1 - 1) ^ 2 * 10001 ^ 1 < 2 ^ 192 * 10000 ^ 1 ∧ 2 ^ 192 * 10000 ^ 1 < (sqrtAt (-1) + 1 + 1) ^ 2 * 10001 ^ 1) := by
   decide +kernel
 example : 100004 * sqrtAt 5 ≤ 100000 * sqrtAt 6 ∧ ¬ (100006 * sqrtAt 5 ≤ 100000 * sqrtAt 6) := by decide +kernel
 
